@@ -138,14 +138,23 @@ Fixpoint run_handlers (cfg : filters_cfg) (objs : list hspec) (st : list hstate)
       end
   end.
 
-Record scenario := { objs : list hspec; pipes : list (list nat); feed : list (nat * msg) }.
-(* every message of the feed goes through the pipeline it names; the objects keep their state *)
+(* one step of a scenario: a message sent through the pipeline it names, or a direct call of the
+   public entry point of one handler object (attributes() of a SeqNumberAttr, filter() of a filter)
+   by some other user of that object.  Handler::process of an attribute handler is
+   updateAttributes(attributes(m)) and that of a filter is filter(m), so a direct call is one
+   handler call of that object: the same step as a pipeline consisting of the object alone. *)
+Inductive step := Send (p : nat) (m : msg) | Direct (o : nat) (m : msg).
+Definition plan (pp : list (list nat)) (s : step) : list nat :=
+  match s with Send p _ => nth p pp [] | Direct o _ => [o] end.
+Definition smsg (s : step) : msg := match s with Send _ m => m | Direct _ m => m end.
+Record scenario := { objs : list hspec; pipes : list (list nat); feed : list step }.
+(* every step of the feed is executed in order; the objects keep their state *)
 Fixpoint run_feed (cfg : filters_cfg) (ob : list hspec) (pp : list (list nat)) (st : list hstate)
-  (fd : list (nat * msg)) : list (list event) :=
+  (fd : list step) : list (list event) :=
   match fd with
   | [] => []
-  | (p, m) :: rest =>
-      let (st', es) := run_handlers cfg ob st (nth p pp []) m in
+  | stp :: rest =>
+      let (st', es) := run_handlers cfg ob st (plan pp stp) (smsg stp) in
       es :: run_feed cfg ob pp st' rest
   end.
 Definition run_scn (cfg : filters_cfg) (sc : scenario) : list (list event) :=
@@ -206,12 +215,12 @@ Fixpoint check_handlers (ob : list hspec) (gs : list ghost) (pl : list nat) (m :
       | _, _ => check_handlers ob gs rest m os
       end
   end.
-Fixpoint check_feed (ob : list hspec) (pp : list (list nat)) (gs : list ghost) (fd : list (nat * msg))
+Fixpoint check_feed (ob : list hspec) (pp : list (list nat)) (gs : list ghost) (fd : list step)
   (oss : list (list obs)) : bool :=
   match fd, oss with
   | [], [] => true
-  | (p, m) :: rest, os :: oss' =>
-      let (gs', ok) := check_handlers ob gs (nth p pp []) m os in
+  | stp :: rest, os :: oss' =>
+      let (gs', ok) := check_handlers ob gs (plan pp stp) (smsg stp) os in
       ok && check_feed ob pp gs' rest oss'
   | _, _ => false
   end.
